@@ -10,6 +10,7 @@ package hist
 import (
 	"encoding/json"
 	"fmt"
+	"math"
 	"reflect"
 	"sort"
 	"strings"
@@ -461,7 +462,13 @@ type scenario struct {
 	// prefix: the histories of this scenario all start with these operations (a non-initial start state: the pool
 	// already holds values) and then only DERIVE values (no further constructor calls); depth counts the derivations
 	prefix []Op
+	// vals, when set, replaces the value domain {0,1,2} for the Insert arguments of this scenario
+	vals []int
 }
+
+// the extremes of the int range: a comparison written as a subtraction overflows between them
+var extremeSets = []Op{{K: "newset", V: []int{math.MinInt64}}, {K: "newset", V: []int{1}}, {K: "newset", V: []int{math.MaxInt64}}, {K: "newset", V: []int{-5000000000000000000, 7}}}
+var extremeVals = []int{math.MinInt64, 0, math.MaxInt64}
 
 // the start state the library itself works from: one singleton set per parser index
 // sets larger than the sizes at which an implementation may switch strategy (8, 16, 32 elements)
@@ -479,9 +486,9 @@ var singletons = []Op{{K: "newset", V: []int{0}}, {K: "newset", V: []int{1}}, {K
 
 func scenarios(tier string) []scenario {
 	if tier == "thorough" {
-		return []scenario{{"sets", false, 5, nil}, {"sets+maps", true, 4, nil}, {"derived-from-singletons", false, 5, singletons}, {"derived-from-large-sets", false, 3, largeSets}}
+		return []scenario{{"sets", false, 5, nil, nil}, {"sets+maps", true, 4, nil, nil}, {"derived-from-singletons", false, 5, singletons, nil}, {"derived-from-large-sets", false, 3, largeSets, nil}, {"derived-from-extreme-values", false, 3, extremeSets, extremeVals}}
 	}
-	return []scenario{{"sets", false, 4, nil}, {"sets+maps", true, 3, nil}, {"derived-from-singletons", false, 4, singletons}, {"derived-from-large-sets", false, 2, largeSets}}
+	return []scenario{{"sets", false, 4, nil, nil}, {"sets+maps", true, 3, nil, nil}, {"derived-from-singletons", false, 4, singletons, nil}, {"derived-from-large-sets", false, 2, largeSets, nil}, {"derived-from-extreme-values", false, 3, extremeSets, extremeVals}}
 }
 
 func run(env *explore.Env) *explore.Result {
@@ -495,6 +502,11 @@ func run(env *explore.Env) *explore.Result {
 // bfs explores all histories of the scenario up to its depth. Level-1 subtrees
 // are distributed over the workers; duplicate detection is per worker.
 func bfs(env *explore.Env, sc scenario, res *explore.Result) {
+	if sc.vals != nil {
+		saved := vals
+		vals = sc.vals
+		defer func() { vals = saved }()
+	}
 	seen := map[string]bool{}
 	type node struct{ ops []Op }
 	root := newPool()
